@@ -31,7 +31,9 @@ Definition flat (l : list (nat * nat)) : list nat := flat_map (fun p => [fst p; 
 (* ================= 1. SynchronizedCache(LRUCache) ================= *)
 (* OrderedDict order: least recently used first *)
 Record lru := { cap : nat; items : list (nat * nat) }.
-Inductive ccall := CGet (k : nat) | CSet (k v : nat) | CContains (k : nat) | CDel (k : nat) | CLen | CClear.
+(* CFail k: an access whose inner step raises (injected fault in the backing cache): the exception is the
+   call's result [8], the cache is unchanged *)
+Inductive ccall := CGet (k : nat) | CSet (k v : nat) | CContains (k : nat) | CDel (k : nat) | CLen | CClear | CFail (k : nat).
 
 Definition lru_get (c : lru) (k : nat) : lru * R :=
   match alookup k (items c) with
@@ -52,6 +54,7 @@ Definition lru_exec (call : ccall) (c : lru) : lru * R :=
               end
   | CLen => (c, [3; length (items c)])
   | CClear => ({| cap := cap c; items := [] |}, [5])
+  | CFail _ => (c, [8])
   end.
 (* locked = true: SynchronizedCache; false: the bare LRUCache shared between threads (two accesses:
    the OrderedDict update and the move_to_end / eviction are separate steps) *)
@@ -138,7 +141,8 @@ End Text.
 
 (* ================= 3. DataStore ================= *)
 Inductive scall := SSet (sys k v : nat) | SGetV (sys k : nat) | SDel (sys k : nat) | SGetData (sys : nat) | SFind (k v : nat)
-                 | SDelData (sys : nat).          (* delete_data: all keys of a system in one statement *)
+                 | SDelData (sys : nat)           (* delete_data: all keys of a system in one statement *)
+                 | SFail (sys : nat).             (* a statement that raises (sqlite error): result [8], store unchanged *)
 Definition store := list ((nat * nat) * nat).
 Fixpoint slookup (s k : nat) (l : store) : option nat :=
   match l with
@@ -167,6 +171,7 @@ Definition store_exec (c : scall) (l : store) : store * R :=
   | SDel s k => (sremove s k l, [5])
   | SGetData s => (l, 6 :: flat (fold_right insert_pair [] (map (fun e => (snd (fst e), snd e)) (filter (fun e => Nat.eqb (fst (fst e)) s) l))))
   | SDelData s => (filter (fun e => negb (Nat.eqb (fst (fst e)) s)) l, [5])
+  | SFail _ => (l, [8])
   | SFind k v => (l, 7 :: fold_right insert_sorted [] (map (fun e => fst (fst e)) (filter (fun e => Nat.eqb (snd (fst e)) k && Nat.eqb (snd e) v) l)))
   end.
 Definition store_prog (c : scall) : list (mstep store unit (scall * R)) :=
@@ -216,7 +221,13 @@ Section Yaml.
              end in
     let rd := reads l ++ [(f, v)] in
     ({| old := old l; reads := rd; out := ymerge (out l) (table f v) |}, o).
+  (* a file version whose content is the single pair (0, 0) stands for an unparsable / unreadable file:
+     compile_data raises, the exception is the call's answer [8] and nothing is stored in the cache *)
+  Definition ybadv (p : nat * nat) : bool := pairs_eqb (table (fst p) (snd p)) [(0, 0)].
+  Definition rd_bad (rd : list (nat * nat)) : bool := existsb ybadv rd.
+  Definition yans (rd : list (nat * nat)) : R := if rd_bad rd then [8] else flat (yspec rd).
   Definition y_set (l : yls) (o : option yitem) (w : list nat) : yls * option yitem :=
+    if rd_bad (reads l) then (l, o) else
     let res := match old l with
                | Some it => if pairs_eqb (snap it) (reads l) then yresult it else out l
                | None => out l
@@ -226,7 +237,7 @@ Section Yaml.
      lives in the shared object instead of the thread *)
   Definition yaml_prog (c : unit) : list (mstep (option yitem) (list nat) yls) :=
     [Acq; Step y_get; Rel] ++ map (fun f => Step (y_read f)) tree ++ [Acq; Step y_set; Rel].
-  Definition yret (l : yls) : R := flat (out l).
+  Definition yret (l : yls) : R := if rd_bad (reads l) then [8] else flat (out l).
 End Yaml.
 
 Fixpoint bump (f : nat) (w : list nat) : list nat :=
